@@ -307,3 +307,77 @@ def targets():      # noqa: F811
     from . import dataflow as DF
     from . import steps
     return _targets_with_zhit() + [DF.target_trnnls("steps")] + steps.targets()
+
+
+_targets_before_pick_minimum = targets
+
+
+def target_pick_minimum():
+    """`_pick_minimum(x, y, x_interp, y_interp)` (the last step of the search for the optimal extension factor): the interpolated
+    curve may be EMPTY -- a narrow but legal `min_log_F_ext .. max_log_F_ext` range leaves no interior points -- while at least one
+    evaluated point always exists; `argmin` of an empty array raises, so it is applied to the interpolated values only on a path that
+    has established that there are some, and to the local minima only if there are any.  The real function runs on sequences whose
+    emptiness is a question to the oracle (every answer explored); returns the abscissa of one of the candidates."""
+    from pyvc import overload as O
+    from . import dataflow as DF
+    from .dataflow import T
+    KE = "analysis/kramers_kronig/exploratory"
+
+    def run(sess: Session):
+        paths = 0
+
+        def once():
+            viol = []
+
+            class Seq:
+                def __init__(self, name, nonempty=None):
+                    self.name, self.nonempty = name, nonempty
+
+                def __getitem__(self, i):
+                    if isinstance(i, Seq):
+                        return Seq(f"{self.name}[{i.name}]", i.nonempty)
+                    return T.var(f"{self.name}[{getattr(i, 'e', i)}]")
+
+                def __iter__(self):
+                    # iterating (e.g. unpacking into a list display) visits the items there are: none if empty
+                    if self.nonempty is None:
+                        self.nonempty = DF.ORACLE.decide("nonempty", f"nonempty({self.name})")
+                    return iter([T.var(f"{self.name}[k]")] if self.nonempty else [])
+
+            class Len:
+                def __init__(self, seq):
+                    self.seq = seq
+
+                def __gt__(self, o):
+                    if o != 0:
+                        raise O.Unsupported("length compared with something other than 0")
+                    if self.seq.nonempty is None:
+                        self.seq.nonempty = DF.ORACLE.decide("nonempty", f"nonempty({self.seq.name})")
+                    return self.seq.nonempty
+
+            def argmin(seq):
+                if isinstance(seq, Seq) and seq.nonempty is not True:
+                    viol.append(seq.name)
+                return T.var(f"argmin({getattr(seq, 'name', 'list')})")
+            x, y = Seq("x", True), Seq("y", True)
+            xi, yi = Seq("x_interp"), Seq("y_interp")
+            ns = {"argmin": argmin, "argrelmin": lambda s_: (Seq(f"argrelmin({s_.name})"),), "len": lambda s_: Len(s_) if isinstance(s_, Seq) else len(s_), "min": min}
+            O.load(KE, ["_pick_minimum"], ns)
+            try:
+                out = ns["_pick_minimum"](x, y, xi, yi)
+            except Exception as ex:       # noqa: BLE001
+                out = ex
+            return out, viol
+        for log, (out, viol), facts in DF.explore(once):
+            paths += 1
+            tag = "[" + ",".join(f"{getattr(w, 'key', w)}={v}" for w, v in log if "nonempty" in str(getattr(w, "key", ""))) + "]"
+            ob = sess.check("call-pre", [], z3.BoolVal(not viol), 0, label=f"argmin is applied only to an array the path has shown to be non-empty{tag}")
+            if viol:
+                ob.detail = f"argmin of possibly empty: {viol}"
+            sess.check("post", [], z3.BoolVal(isinstance(out, T)), 0, label=f"_pick_minimum returns the abscissa of a candidate{tag}")
+        sess.check("cover", [], z3.BoolVal(paths >= 3), 0, label=f"paths executed: {paths}")
+    return (f"{KE}:_pick_minimum", KE, "_pick_minimum", run)
+
+
+def targets():      # noqa: F811
+    return _targets_before_pick_minimum() + [target_pick_minimum()]
